@@ -6,10 +6,8 @@ package zzverif
 
 import (
 	"fmt"
-	"math/big"
 	"strings"
 	"testing"
-	"time"
 
 	"google.golang.org/protobuf/proto"
 )
@@ -53,124 +51,6 @@ var c05Pool = func() []Val {
 	}
 	return uniq
 }()
-
-// ---------------------------------------------------------------------------
-// M-CMP
-
-type cmpVal struct {
-	fam  string // num str bool temporal time qty other
-	num  *big.Rat
-	str  string
-	b    bool
-	comp []int64 // temporal components (UTC-normalised) up to its precision
-	unit string
-	msg  proto.Message
-}
-
-func c05Classify(v Val) cmpVal {
-	switch v.K {
-	case "Integer", "Decimal", "fhir.integer", "fhir.decimal":
-		return cmpVal{fam: "num", num: ratOf(v.S)}
-	case "fhir.positiveInt", "fhir.unsignedInt":
-		r := ratOf(v.S)
-		if !fitsInt32(r) {
-			return cmpVal{fam: "other"} // not a System Integer
-		}
-		return cmpVal{fam: "num", num: r}
-	case "String", "fhir.string", "fhir.code", "fhir.id", "fhir.markdown", "fhir.uri", "fhir.url", "fhir.canonical", "fhir.uuid", "fhir.oid":
-		return cmpVal{fam: "str", str: v.S}
-	case "Boolean", "fhir.boolean":
-		return cmpVal{fam: "bool", b: v.S == "true"}
-	case "Date", "DateTime", "fhir.date", "fhir.dateTime", "fhir.instant":
-		t, err := parseAnyTemporal(v.S, false)
-		if err != nil {
-			return cmpVal{fam: "other"}
-		}
-		return cmpVal{fam: "temporal", comp: c05Components(t, false)}
-	case "Time", "fhir.time":
-		t, err := parseAnyTemporal(v.S, true)
-		if err != nil {
-			return cmpVal{fam: "other"}
-		}
-		return cmpVal{fam: "time", comp: c05Components(t, true)}
-	case "Quantity", "fhir.Quantity":
-		return cmpVal{fam: "qty", num: ratOf(v.S), unit: v.U}
-	}
-	return cmpVal{fam: "other"}
-}
-
-// c05Components: [Y M D h m s·10⁹+ns] truncated to the value's precision after
-// normalising the offset to UTC (no offset = UTC).  Seconds and fractions are one
-// precision.
-func c05Components(t temporal, isTime bool) []int64 {
-	g := t.goTime().In(time.UTC)
-	if t.prec <= 2 {
-		g = time.Date(t.Y, time.Month(t.M), t.D, 0, 0, 0, 0, time.UTC)
-	}
-	all := []int64{int64(g.Year()), int64(g.Month()), int64(g.Day()), int64(g.Hour()), int64(g.Minute()), int64(g.Second())*1e9 + int64(g.Nanosecond())}
-	n := t.prec + 1
-	if n > 6 {
-		n = 6
-	}
-	if isTime {
-		return all[3:n]
-	}
-	return all[:n]
-}
-
-// c05Model returns eq and lt as "T" "F" "E", or "" when the statement does not
-// cover the pair.
-func c05Model(a, b cmpVal) (eq, lt string) {
-	tf := func(x bool) string {
-		if x {
-			return "T"
-		}
-		return "F"
-	}
-	if a.fam != b.fam {
-		return "", ""
-	}
-	switch a.fam {
-	case "num":
-		c := a.num.Cmp(b.num)
-		return tf(c == 0), tf(c < 0)
-	case "str":
-		return tf(a.str == b.str), tf(strings.Compare(a.str, b.str) < 0) // UTF-8 byte order = code point order
-	case "bool":
-		return tf(a.b == b.b), ""
-	case "temporal", "time":
-		n := len(a.comp)
-		if len(b.comp) < n {
-			n = len(b.comp)
-		}
-		for i := 0; i < n; i++ {
-			if a.comp[i] != b.comp[i] {
-				return "F", tf(a.comp[i] < b.comp[i])
-			}
-		}
-		if len(a.comp) == len(b.comp) {
-			return "T", "F"
-		}
-		return "E", "E"
-	case "qty":
-		if a.unit != b.unit {
-			return "E", "E"
-		}
-		c := a.num.Cmp(b.num)
-		return tf(c == 0), tf(c < 0)
-	}
-	return "", ""
-}
-
-func neg3(x string) string {
-	switch x {
-	case "T":
-		return "F"
-	case "F":
-		return "T"
-	}
-	return x
-}
 
 // ---------------------------------------------------------------------------
 
